@@ -72,7 +72,7 @@ def _workload(c):
             v.termfreqs(t)
             v.score(t)
             v.docfreq(t)
-            if t != "zzz":
+            if any(t in d.split() for d in docs):       # (positions of a term no document has raises TermMissingError)
                 v.positions(t)
             v.termfreqs(t, min_posn=18, max_posn=35)
         v.termfreqs(vocab[:2] if len(vocab) >= 2 else [vocab[0], vocab[0]])
